@@ -455,9 +455,13 @@ def mode_update(req):
     os.chdir(cwd)
     proto = {"0": 0, "1": 1, "cur": PROTOCOL, "cur+1": PROTOCOL + 1}[case["proto"]]
     value = make_value(case["obj"])
-    make_archive("in.skops", value, proto)
+    # where the input archive lives, as given on the command line (relative to cwd, or absolute under {S})
+    inp = case.get("input", "in.skops").replace("{S}", S)
+    in_real = os.path.normpath(os.path.join(cwd, inp))
+    os.makedirs(os.path.dirname(in_real), exist_ok=True)
+    make_archive(in_real, value, proto)
     known = {}
-    with open("in.skops", "rb") as f:
+    with open(in_real, "rb") as f:
         in_bytes = f.read()
     known[sha(in_bytes)] = [1]
     for rel, content, tok in (("other.bin", b"bystander-3", [3]), ("sub/keep.txt", b"bystander-4", [4])):
@@ -467,24 +471,24 @@ def mode_update(req):
     output = case["output"].replace("{S}", S).replace("{X}", X or "/nonexistent") if case["output"] is not None else None
     dst_real = None
     if case["inplace"] and output is None:
-        dst_real = os.path.join(cwd, "in.skops")
+        dst_real = in_real
     elif output is not None:
         dst_real = os.path.normpath(os.path.join(cwd, output))
     old = b"OLD-DESTINATION-CONTENT"
     known[sha(old)] = [2]
     if case.get("pre_dst") and output is not None and os.path.isdir(os.path.dirname(dst_real)) \
-            and os.path.normpath(dst_real) != os.path.join(cwd, "in.skops"):
+            and os.path.normpath(dst_real) != in_real:
         with open(dst_real, "wb") as f:
             f.write(old)
     # what the property promises at the destination: dumps(load(input)) at the current protocol
-    obj0 = sio.load("in.skops", trusted=sio.get_untrusted_types(file="in.skops"))
+    obj0 = sio.load(in_real, trusted=sio.get_untrusted_types(file=in_real))
     new_bytes = sio.dumps(obj0)
     new_entries = zip_entries(new_bytes)
     meta = {"known": known, "new_entries": new_entries, "dst_real": dst_real,
-            "in_real": os.path.join(cwd, "in.skops"), "roots": roots, "protocol": PROTOCOL}
+            "in_real": in_real, "roots": roots, "protocol": PROTOCOL}
     with open(os.path.join(req["scratch"], "meta.json"), "w") as f:
         json.dump(meta, f)
-    argv = ["update", "in.skops"] + (["-o", output] if output is not None else []) \
+    argv = ["update", inp] + (["-o", output] if output is not None else []) \
         + (["--inplace"] if case["inplace"] else []) + list(case.get("flags", ["-v"]))
     tr = Tracer(roots, known, new_entries, crash=req.get("crash"), scrub=[(S, "/S")] + ([(X, "/X")] if X else []))
     initial = structured_state(tr.namer, known, new_entries)
@@ -502,7 +506,7 @@ def mode_update(req):
             oracle["dst_loads_equal"] = canon_obj(back) == canon_obj(value)
         except Exception as e:
             oracle["dst_error"] = type(e).__name__
-    with open(os.path.join(cwd, "in.skops"), "rb") as f:
+    with open(in_real, "rb") as f:
         oracle["input_unchanged"] = f.read() == in_bytes
     return {"argv": argv, "timeline": tr.timeline, "initial": initial, "final": final, "exc": exc,
             "logs": tr.logs, "other_stderr": tr.other_stderr[:5], "info": tr.info, "hook_errors": tr.errors,
